@@ -70,7 +70,8 @@ C03 = [
     A('select_create_any_accepts', SEL_FNS, B_SEL_ANY + '; context: CreateContractHostFn' + PINNED, must_succeed=True, tier='thorough'),
     A('check_auth_one_default_rule', AUTH_FNS + EXAMPLE_AUTH, B_ONE + CALLCTX + '; through the example account\'s __check_auth'),
     A('check_auth_one_own_rule', AUTH_FNS, B_ONE + '; context: CreateContractHostFn', tier='thorough'),
-    A('check_auth_one_rule_accepts', AUTH_FNS, B_ONE + '; the listed rule Default or own type; context: CreateContractWithCtorHostFn' + PINNED, must_succeed=True),
+    A('check_auth_one_default_rule_accepts', AUTH_FNS, B_ONE + CALLCTX + PINNED, must_succeed=True),
+    A('check_auth_one_own_rule_accepts', AUTH_FNS, B_ONE + '; context: CreateContractWithCtorHostFn' + PINNED, must_succeed=True, tier='thorough'),
     A('select_own_own_2pol', SEL_FNS, B_SEL2 + CALLCTX, tier='thorough'),
     A('select_own_default_2pol', SEL_FNS, B_SEL2 + CALLCTX, tier='thorough'),
     A('select_default_default_2pol', SEL_FNS, B_SEL2 + '; context: CreateContractWithCtorHostFn', tier='thorough'),
